@@ -88,6 +88,7 @@ type Interp struct {
 	steps    int
 	depth    int
 	symOrder bool
+	inInit   bool
 	wraps    map[string]Iface
 
 	trace []string
@@ -882,7 +883,13 @@ func (in *Interp) noteWrite(r Ref, fr *frame) {
 		if c.Glob.Name() == "init$guard" {
 			return
 		}
-		if in.H != nil && in.H.inInit {
+		if in.inInit {
+			return
+		}
+		if c.Glob.Pkg == nil || !strings.HasPrefix(c.Glob.Pkg.Pkg.Path(), repoMod) {
+			return
+		}
+		if strings.HasPrefix(c.Glob.Name(), "vh") || strings.HasPrefix(c.Glob.Name(), "vrt") || isHarnessFn(fr.fn) {
 			return
 		}
 		in.gwrites[c.Glob.String()+" in "+fr.fn.String()] = true
@@ -903,7 +910,13 @@ func (in *Interp) unop(fr *frame, x *ssa.UnOp) Value {
 		if p.R == nil {
 			in.goPanic("nil pointer dereference in %s", fr.fn.Name())
 		}
-		return copyValue(p.R.Get())
+		lv := p.R.Get()
+		if m, ok := lv.(*MapV); ok && m != nil && m.Glob == "" {
+			if c := refRoot(p.R); c != nil && c.Glob != nil && c.Glob.Pkg != nil && strings.HasPrefix(c.Glob.Pkg.Pkg.Path(), repoMod) && !strings.HasPrefix(c.Glob.Name(), "vh") {
+				m.Glob = c.Glob.String()
+			}
+		}
+		return copyValue(lv)
 	case token.NOT:
 		return in.tf.Not(v.(*Term))
 	case token.SUB:
